@@ -1,11 +1,14 @@
 """C09: what goes on the wire is exactly the documented protocol (DESIGN.md 7/C09)."""
 from vlib import run_pair
-from xl import xl_pair, xl_search
+from xl import xl_pair, xl_search, XL_TRUSTED
 
 PID = "C09"
 MODEL_VOS = ["model/Wire.vo"]
+TRUSTED_EXTRA = [XL_TRUSTED]
 USES_TRANSLATED = True     # props/C09.v has a theorem over gen/Translated.v: a translator failure is a problem of this check
 ASSUMPTIONS = [
+    "user hint on every nonce: the e2e traces (real client and server over simnet, nonce-pattern dimension: none = implicit from the traffic-pattern seed, printable, printable subset, fixed prefix, random; applyToAllUDPPacket true / false / unset; several seeds) and the unit driver (k-th nonce, k = 1..5, of a stateless and a stateful cipher and of client / server-reply datagrams under every pattern kind) require the documented hint of the sending user on EVERY UDP datagram and on the nonce of every TCP direction; a document-only UDP server (refcodec) that finds the user of every datagram by the hint among three registered users serves a real client. C09_user_hint_placement states the position; that the real code places it is compared, not proved (SHA-256 is uninterpreted)",
+    "UDP re-keying: C09_udp_reply_key_follows_peer is proved over sess_input of model/Wire.v (the reply key of a server session is the key of the most recent authentic segment) tied to the slots of model/KeyTime.v; sess_input is compared with the real Session.input on salt histories (RK cases), and a document-only UDP client that derives its key from its current time for every datagram keeps one session echoing across 1..4 changes of the time salt under virtual time (every server datagram must open under one of the three salts around the client's current time). The rest of the session state machine is not part of the Wire model (C02 owns it)",
     "whole endpoints: driver e2e (-prop C09) runs real client and server Muxes over simnet (both transports, traffic patterns with padding / low-entropy modes x rotations / TCP fragmentation, loss on UDP) and requires every emitted TCP stream and UDP datagram to decode with refcodec; it also lets refcodec act as a third-party client (any of the three key slots, paddings 0..255, any valid mask/rotation/mode, piggybacked open payload 0..1024, maximum payloads, arbitrary TCP chunking) against a real server, whose application must receive the exact bytes and whose reply refcodec must decode (oracle only)",
     "SHA-256, PBKDF2 and XChaCha20-Poly1305 are uninterpreted in the Coq model (Section variables); conformance of key derivation, user hint, sealed boxes and nonce use is established by vectors and by interop runs between mieru's real read/writeOneSegment and the document-only codec harness/refcodec, not by proof",
     "the timestamp window of Unmarshal is outside the Wire model (C08 proves it); the driver stamps the current minute and checks the window by oracle only",
@@ -26,7 +29,7 @@ def search(ctx):
     return xl_search(ctx, "c09") + [run_pair(ctx, "c09", PID, None, tier="thorough", seed=ctx.seed + 1000 + i, subdir="search%d" % i) for i in range(2)]
 
 MANIFEST = dict(
-    text="Theorems over the Wire model (the three 32-byte metadata layouts with one offset lemma per row of the document's tables, marshal/unmarshal round trip and injectivity on valid metadata, 32-byte length, protocol-type partition of 0..255, the 24-byte big-endian nonce increment as +1 mod 2^192 and its iteration, documented constants) proved for all field values; constants regenerated from /repo; the model is compared with pkg/protocol Marshal/Unmarshal/predicates and pkg/cipher increaseNonce on boundary corpora, every protocol byte and random cases; key derivation, user hint, complete TCP streams and UDP datagrams, the low-entropy codec and the UDP-associate frame are compared in both directions with an independent codec written from docs/protocol.md.",
+    text="Theorems over the Wire model (the three 32-byte metadata layouts with one offset lemma per row of the document's tables, marshal/unmarshal round trip and injectivity on valid metadata, 32-byte length, protocol-type partition of 0..255, the 24-byte big-endian nonce increment as +1 mod 2^192 and its iteration, documented constants, the reply key of a UDP server session following the peer's most recent key and staying within the peer's three time salts) proved for all field values; constants regenerated from /repo; the model is compared with pkg/protocol Marshal/Unmarshal/predicates and pkg/cipher increaseNonce on boundary corpora, every protocol byte and random cases; key derivation, user hint, complete TCP streams and UDP datagrams, the low-entropy codec and the UDP-associate frame are compared in both directions with an independent codec written from docs/protocol.md.",
     note="Crypto primitives are uninterpreted in the model (vectors and interop only). The timestamp window belongs to C08. Interop is at the level of readOneSegment/writeOneSegment over in-memory connections (server side through the real user registry), not whole endpoints.",
     technique="Coq proof (lists of N, lia with div/mod, vm_compute over 0..255) of layout/round-trip/nonce theorems + differential run of the extracted model against pkg/protocol and pkg/cipher + interop with harness/refcodec",
 )
